@@ -175,6 +175,16 @@ def _line(case):
                 okq, Pl = c.lib(name + "/closest/point(lam)", ln.point, clam)
                 if okq:
                     c.eq(name + "/closest/lam", np.asarray(Pl, dtype=float)[:, 0], proj, TOL, Sx)
+        # query points ON the line (its defining point, point(lambda)) and a hair off it: the reported distance is the
+        # distance (0, or the tiny offset), to the stated relative 1e-9 - not the root of a difference of squares
+        for qn, xq in (("defining", p.copy()), ("point(lam)", p + wh * case["lam"]), ("hair_off", p + wh * case["lam"] + n1 * 3e-7 * S)):
+            okc2, cl2 = c.lib(name + "/closest/on_line", ln.closest, list(xq))
+            if okc2:
+                try:
+                    c.eq(name + "/closest/on_line/d", float(cl2.d), dist_point_line(xq, p, w), TOL, max(S, float(np.max(np.abs(xq)))), query=qn)
+                    c.eq(name + "/closest/on_line/p", np.asarray(cl2.p, dtype=float).ravel(), p + wh * np.dot(xq - p, wh), TOL, max(S, float(np.max(np.abs(xq)))), query=qn)
+                except Exception as e:  # noqa
+                    c.fail(name + "/closest/fields", "closest() returned %r (%s)" % (cl2, e))
         # rigid transformation: T*L passes through T*P and T*Q
         T = refs.pose3_of(case["T"])
         okt, lt = c.lib(name + "/SE3*L", lambda: L.SE3(T.copy(), check=False) * ln)
@@ -359,8 +369,18 @@ def _pair(case):
             Sf = max(S, float(np.max(np.abs(f1))), float(np.max(np.abs(f2))))
             c.true("commonperp/meets1", dist_point_line(f1, cpp, cw) <= TOL * 10 * Sf / sinang, "common perpendicular misses line 1 by %.3g" % dist_point_line(f1, cpp, cw))
             c.true("commonperp/meets2", dist_point_line(f2, cpp, cw) <= TOL * 10 * Sf / sinang, "common perpendicular misses line 2 by %.3g" % dist_point_line(f2, cpp, cw))
-    # equality
+    # equality; != is its negation for every pair
+    okn, ne = c.lib("!=", lambda: l1 != l2)
     oke, e = c.lib("==", lambda: l1 == l2)
+    if okn and oke:
+        c.true("!=/negates==", bool(ne) is (not bool(e)), "%s lines: == gives %r and != gives %r" % (rel, e, ne))
+    # the same line with the opposite orientation is a different oriented line
+    okr, lrev = c.lib("PointDir/reversed", L.Plucker.PointDir, list(p1 + u1 * case["lam"]), list(-w1 * k))
+    if okr:
+        for opn, f_, want_ in (("==", lambda: l1 == lrev, False), ("!=", lambda: l1 != lrev, True), ("==/swapped", lambda: lrev == l1, False), ("!=/swapped", lambda: lrev != l1, True)):
+            oko, r_ = c.lib("reversed/" + opn, f_)
+            if oko:
+                c.true("reversed/" + opn, bool(r_) is want_, "line %s the same line reversed gave %r" % (opn, r_))
     if oke:
         if rel == "coincident":
             c.true("==/coincident", bool(e) is True, "coincident lines (second built from another point, direction x %.3g) compare unequal" % k, k=k, lam=case["lam"])
